@@ -88,3 +88,6 @@ func GetEncoded(ct config.CompressionType, cmd []byte) []byte {
 func NewOnDiskSM(cfg config.Config, u sm.IOnDiskStateMachine, done <-chan struct{}) IManagedStateMachine {
 	return rsm.NewNativeSM(cfg, rsm.NewOnDiskStateMachine(u), done)
 }
+
+// MuFree is (*rsm.StateMachine).VerifC05MuFree.
+func MuFree(s *StateMachine) bool { return s.VerifC05MuFree() }
